@@ -109,9 +109,10 @@ template <class T> static inline T gen_base(pbt::Ctx& c) {
 // counts the rest. Never active in replay / shrink runs (forced_only), so a stored case always reports its failure.
 namespace refulp {
 static inline uint64_t key_hash(const void* a, const void* b, const void* c, const void* d, uint64_t e) {
-	uint64_t h = pbt::mix64((uint64_t)(uintptr_t)a);
-	h = pbt::mix64(h ^ (uint64_t)(uintptr_t)b); h = pbt::mix64(h ^ (uint64_t)(uintptr_t)c); h = pbt::mix64(h ^ (uint64_t)(uintptr_t)d);
-	return pbt::mix64(h ^ e);
+	// the parts are addresses of string literals (or null): distinct odd multipliers keep the four positions apart, one mix at the end
+	uint64_t h = (uint64_t)(uintptr_t)a * 0x9e3779b97f4a7c15ULL ^ (uint64_t)(uintptr_t)b * 0xbf58476d1ce4e5b9ULL ^ (uint64_t)(uintptr_t)c * 0x94d049bb133111ebULL ^
+	             (uint64_t)(uintptr_t)d * 0xd6e8feb86659fd93ULL;
+	return pbt::mix64(h + e * 0x2545f4914f6cdd1dULL);
 }
 // failure keys name the overload family only: "vec-int/", "vec-ivec/" -> "vec/" (the exact overload goes into the message)
 static inline std::string key_form(const char* form) {
@@ -126,7 +127,12 @@ static inline bool repeat_failure(pbt::Ctx& c, uint64_t h) {
 	const unsigned slot = (unsigned)(h & 15);
 	if (!(cache_n[slot] && cache_h[slot] == h)) { cache_n[slot] = &seen[h]; cache_h[slot] = h; }  // node addresses are stable across rehashing
 	uint32_t& n = *cache_n[slot];
-	if (n >= 64) { c.cls("repeat failure of a key this worker already recorded 64 times (counted here, not re-recorded)"); return true; }
+	if (n >= 64) {
+		// counted in blocks of 1024 per worker (a counter update per failure would dominate a sweep in which half of the domain fails)
+		thread_local uint32_t pending = 0;
+		if (++pending == 1024) { c.st->cls("repeat failures of keys a worker had already recorded 64 times (not re-recorded; counted in blocks of 1024 per worker)", 1024); pending = 0; }
+		return true;
+	}
 	++n;
 	return false;
 }
